@@ -145,6 +145,13 @@ def run_case(case):
         if st['lem'] is None:
             st['lem'] = norm_lemmas(ctx, cap, records, 'path%d' % pidx) or False
         proved = {}
+        if any(a not in framesX or a not in framesY for a in set(eq.values())):
+            # the staged proof reads the frames the map holds after construction and after the call; an implementation that
+            # does not have them at those points cannot be decided this way (C04 checks construction-time snapshots)
+            records.append({'name': 'path%d: the map holds no frames for its anchors right after construction: staged distance proof not applicable' % pidx,
+                            'status': 'unknown', 'secs': 0})
+            st['queries'] += ctx.queries; st['solver_s'] += ctx.solver_time
+            continue
         for a in sorted(set(eq.values())):
             okx, px, lx = prove_frame(ctx, framesX[a][0], cap, 'path%d anchor%d frame(X)' % (pidx, a), records, wit, abs_tag='X')
             oky, py, ly = prove_frame(ctx, framesY[a][0], cap, 'path%d anchor%d frame(Y)' % (pidx, a), records, wit, abs_tag='Y')
